@@ -10,7 +10,9 @@ import (
 	"strings"
 	"time"
 
+	"github.com/olive-io/bpmn/schema"
 	bpmn "github.com/olive-io/bpmn/v2"
+	"github.com/olive-io/bpmn/v2/pkg/data"
 
 	"verif/harness/gen"
 	"verif/harness/model"
@@ -110,6 +112,25 @@ type Hooks struct {
 	KeepAlive bool
 }
 
+// SplitVars separates a case's variable map into the instance variables and
+// the data objects (keys gen.DataObjKey(name)).
+func SplitVars(all map[string]any) (vars, dataObjects map[string]any) {
+	for k, v := range all {
+		if strings.HasPrefix(k, "$do$") {
+			if dataObjects == nil {
+				dataObjects = map[string]any{}
+			}
+			dataObjects[strings.TrimPrefix(k, "$do$")] = v
+			continue
+		}
+		if vars == nil {
+			vars = map[string]any{}
+		}
+		vars[k] = v
+	}
+	return
+}
+
 func multisetDiff(want, got []string) (missing, extra []string) {
 	cnt := map[string]int{}
 	for _, w := range want {
@@ -188,7 +209,23 @@ func RunLockstep(c *Case, pick func(n int) int, hk *Hooks) *Outcome {
 	if hk.NewInst != nil {
 		in, err = hk.NewInst(xml, c.Vars)
 	} else {
-		in, err = New(xml, Options{Vars: c.Vars, SplitCtx: c.CancelBuildAfter > 0})
+		ev, do := SplitVars(c.Vars)
+		in, err = New(xml, Options{Vars: ev, SplitCtx: c.CancelBuildAfter > 0})
+		// data objects are declared in the process (id != name) and given their
+		// value the way the repository's own fixture does it: through the
+		// locator, by name, before the start
+		for name, v := range do {
+			if err != nil {
+				break
+			}
+			loc, ok := in.P.Locator().FindIItemAwareLocator(data.LocatorObject)
+			if !ok {
+				continue // the program declares no data object
+			}
+			if aware, found := loc.FindItemAwareByName(name); found {
+				aware.Put(schema.NewValue(v))
+			}
+		}
 	}
 	if err != nil {
 		out.Symptom, out.Detail = "construct", err.Error()+"\n"+xml
@@ -463,7 +500,11 @@ func RunLockstep(c *Case, pick func(n int) int, hk *Hooks) *Outcome {
 		for k, it := range in.P.Locator().CloneVariables() {
 			gotVars[k] = it.Value()
 		}
-		if !reflect.DeepEqual(gotVars, m.Vars) {
+		wantVars, _ := SplitVars(m.Vars)
+		if wantVars == nil {
+			wantVars = map[string]any{}
+		}
+		if !reflect.DeepEqual(gotVars, wantVars) {
 			return fail("vars", fmt.Sprintf("final variables: engine %v, model %v", gotVars, m.Vars), gs)
 		}
 	}
